@@ -51,13 +51,17 @@ func sanitize(s string) string {
 }
 
 // build compiles the test binary for a package dir (once).
-func (r *Replayer) build(pkgDir string) (string, error) {
+func (r *Replayer) build(pkgDir string, instrumented bool) (string, error) {
 	if r.bins == nil {
 		r.bins = map[string]string{}
 		r.binErr = map[string]error{}
 	}
-	if b, ok := r.bins[pkgDir]; ok {
-		return b, r.binErr[pkgDir]
+	key := pkgDir
+	if instrumented {
+		key += "#instr"
+	}
+	if b, ok := r.bins[key]; ok {
+		return b, r.binErr[key]
 	}
 	wd := r.workDir()
 	// driver
@@ -84,10 +88,20 @@ func (r *Replayer) build(pkgDir string) (string, error) {
 		ov["Replace"][virt] = real
 	}
 	ov["Replace"][filepath.Join(r.repo, pkgDir, "zz_verif_driver_test.go")] = driver
-	ovPath := filepath.Join(wd, sanitize(pkgDir)+"_overlay.json")
+	if instrumented {
+		ins := r.L.Instr()
+		k := 0
+		for virt, content := range ins.Files {
+			k++
+			p := filepath.Join(wd, fmt.Sprintf("instr_%d_%s", k, filepath.Base(virt)))
+			os.WriteFile(p, content, 0o644)
+			ov["Replace"][virt] = p
+		}
+	}
+	ovPath := filepath.Join(wd, sanitize(key)+"_overlay.json")
 	b, _ := json.Marshal(ov)
 	os.WriteFile(ovPath, b, 0o644)
-	bin := filepath.Join(wd, sanitize(pkgDir)+".test")
+	bin := filepath.Join(wd, sanitize(key)+".test")
 	cmd := exec.Command("go", "test", "-c", "-tags", "verif,unit", "-vet=off", "-overlay", ovPath, "-o", bin, "./"+pkgDir)
 	cmd.Dir = r.repo
 	cmd.Env = append(os.Environ(), "GOFLAGS=-mod=mod", "GOPROXY=off", "GOSUMDB=off", "GOTOOLCHAIN=local")
@@ -95,8 +109,8 @@ func (r *Replayer) build(pkgDir string) (string, error) {
 	if err != nil {
 		err = fmt.Errorf("go test -c failed: %v\n%s", err, truncate(string(out), 3000))
 	}
-	r.bins[pkgDir] = bin
-	r.binErr[pkgDir] = err
+	r.bins[key] = bin
+	r.binErr[key] = err
 	return bin, err
 }
 
@@ -138,11 +152,34 @@ func (r *Replayer) Replay(h *Harness, f *Finding, tag string) (*ReplayOutcome, e
 	if h.Opts["replay"] == "off" {
 		return nil, fmt.Errorf("native replay disabled for this harness")
 	}
-	bin, err := r.build(h.PkgDir)
+	instrumented := h.Threads > 1 && len(f.Schedule) > 0
+	bin, err := r.build(h.PkgDir, instrumented)
 	if err != nil {
 		return nil, err
 	}
-	return runReplayBinary(bin, filepath.Join(r.repo, h.PkgDir), path, h.Opts["replay_timeout"])
+	timeout := h.Opts["replay_timeout"]
+	if timeout == "" && instrumented {
+		timeout = "4s"
+	}
+	attempts := 1
+	if instrumented {
+		attempts = atoiDef(h.Opts["replay_attempts"], 8)
+	}
+	var out *ReplayOutcome
+	for a := 0; a < attempts; a++ {
+		out, err = runReplayBinary(bin, filepath.Join(r.repo, h.PkgDir), path, timeout)
+		if err != nil {
+			return nil, err
+		}
+		if f.Kind == "cover" {
+			if out.Outcome == "ok" {
+				break
+			}
+		} else if matchOutcome(f, out) {
+			break
+		}
+	}
+	return out, nil
 }
 
 func runReplayBinary(bin, dir, replayFile, timeout string) (*ReplayOutcome, error) {
